@@ -198,6 +198,15 @@ class TreeGen:
                 parent = files[rnd.choice(cands)] if rnd.random() < 0.5 else files[0]
                 lo = 2 if parent is files[0] else 0      # after main's leading definitions (see make_file)
                 pos = rnd.randrange(lo, len(parent['items']) + 1)
+                if self.use_zones and parent is not files[0] and rnd.random() < 0.3:
+                    # the include as the very last line of a file that has just placed bytes in a zone: the included
+                    # text lives in GLOBAL, so nothing follows the #include line at its own (zone) address
+                    zname = rnd.choice(sorted(self.info['zones']))
+                    lab = f'z{i}e'
+                    parent['items'] += [{'t': 'line', 's': f'  .memzone {zname}', 'r': f'  .memzone {zname}'},
+                                        {'t': 'line', 's': f'{lab}:', 'r': f'{lab}:'},
+                                        {'t': 'line', 's': '  .byte $C7', 'r': '  .byte $C7'}]
+                    pos = len(parent['items'])
                 wrap = wraps[i]
                 seq = [{'t': 'inc', 'file': files[i]}]
                 if rnd.random() < 0.2:
